@@ -43,7 +43,7 @@ func boundaryValues(t reflect.Type, a *spec.Attr) []reflect.Value {
 		for _, n := range a.EnumNumbers {
 			add(n)
 		}
-	case reflect.Int64:
+	case reflect.Int64, reflect.Int:
 		for _, n := range []int64{0, 1, -1, math.MaxInt64, math.MaxInt64 - 1, math.MinInt64, math.MinInt64 + 1, math.MaxInt32, math.MaxInt32 + 1, math.MinInt32, math.MinInt32 - 1,
 			math.MaxUint32, math.MaxUint32 + 1, 1 << 53, 1<<53 + 1, -(1 << 53), -(1<<53 + 1), 1 << 62, -(1 << 62)} {
 			add(n)
@@ -52,7 +52,7 @@ func boundaryValues(t reflect.Type, a *spec.Attr) []reflect.Value {
 		for _, n := range []uint32{0, 1, 2, math.MaxInt32, math.MaxInt32 + 1, math.MaxUint32, math.MaxUint32 - 1, 1<<24 + 1, 65535, 65536} {
 			add(n)
 		}
-	case reflect.Uint64:
+	case reflect.Uint64, reflect.Uint:
 		for _, n := range []uint64{0, 1, math.MaxInt64, math.MaxInt64 + 1, math.MaxInt64 + 2, math.MaxUint64, math.MaxUint64 - 1, math.MaxUint32, math.MaxUint32 + 1, 1<<53 + 1, 1 << 63, 1<<63 + 1<<62} {
 			add(n)
 		}
@@ -95,11 +95,11 @@ func randomLeaf(t reflect.Type, r *rng) reflect.Value {
 		v.SetBool(r.intn(2) == 0)
 	case reflect.Int32:
 		v.SetInt(int64(int32(r.next())))
-	case reflect.Int64:
+	case reflect.Int64, reflect.Int:
 		v.SetInt(int64(r.next()))
 	case reflect.Uint32:
 		v.SetUint(uint64(uint32(r.next())))
-	case reflect.Uint64:
+	case reflect.Uint64, reflect.Uint:
 		v.SetUint(r.next())
 	case reflect.Float32:
 		for {
